@@ -1,18 +1,21 @@
 #!/usr/bin/env python3
 """Import confirmed seeded changes: seeded/<PROP>-<k>/{patch.diff,demo.rs,README.md,meta.json}
-usage: import_seeds.py <confirm.jsonl>"""
+usage: import_seeds.py <confirm.jsonl> [<round tag, e.g. r2>] [<detected.json: {"C01-r2-1": "C01/S2", ..}>]"""
 import json, os, re, shutil, sys
 VERIF = os.path.dirname(os.path.dirname(os.path.abspath(__file__)))
+TAG = sys.argv[2] if len(sys.argv) > 2 else ""
+DET = json.load(open(sys.argv[3])) if len(sys.argv) > 3 else {}
 for l in open(sys.argv[1]):
     d = json.loads(l)
     s = d["seed"]
-    m = re.search(r"/(C\d+)/SEED/(\d+)$", s)
+    m = re.search(r"/(C\d+)/SEED/(\d+)$", s) or re.search(r"/(C\d+)-(\d+)$", s)
     prop, k = m.group(1), m.group(2)
+    rebased = "/seed2r/" in s
     ok = d["applied"] and "ok. " in d["demo_on_original"] and "403 passed; 0 failed" in d["baseline_with_patch"] and "FAILED" in d["demo_with_patch"]
     if not ok:
         print("NOT CONFIRMED, skipped:", s, d)
         continue
-    dst = os.path.join(VERIF, "seeded", "%s-%s" % (prop, k))
+    dst = os.path.join(VERIF, "seeded", "%s-%s%s" % (prop, TAG + "-" if TAG else "", k))
     os.makedirs(dst, exist_ok=True)
     for f in ("patch.diff", "demo.rs", "README.md"):
         if os.path.exists(os.path.join(s, f)):
@@ -37,7 +40,9 @@ for l in open(sys.argv[1]):
             "baseline_with_patch": d["baseline_with_patch"].strip(),
             "demo_with_patch": d["demo_with_patch"].strip(),
         },
-        "detected_by": old.get("detected_by", "see DESIGN.md §8"),
+        "detected_by": DET.get("%s-%s%s" % (prop, TAG + "-" if TAG else "", k)) or old.get("detected_by", "see DESIGN.md §8"),
     }
+    if rebased:
+        meta["rebased"] = "the sub-agent wrote the change against the pinned snapshot; a later fix: commit touched the same lines, so the lead re-applied the same edit on the repaired tree and re-confirmed it"
     json.dump(meta, open(meta_path, "w"), indent=1)
     print("imported", prop, k, files)
